@@ -608,7 +608,7 @@ fn parse_tlv<'a>(state: &mut Parser<'a>) -> Result<TLV<'a>> {
 	}
 
 	// Padding for the Value
-	words = &words[key.len().align_to(2) + 4..];
+	words = &words[cmp::min(key.len().align_to(2) + 4, words.len())..];
 
 	// Split the remaining words between the Value and Children
 	if value_length > words.len() {
